@@ -36,6 +36,26 @@ type config struct {
 	// through a second Limiter placed "after" or "before" the Limiter of the concurrency quota; "conc-after" /
 	// "conc-before": that second quota is a concurrency quota too (100000 slots, never refuses)
 	Second string `json:"second_quota,omitempty"`
+	// IDs: how the transaction ids read - the proxy takes them from the client's x-lunar-req-id header when there is
+	// one, so they are free text: "" = t<n>; "nested" = pairs of ids of which one is the other plus "::retry" (the
+	// separator the concurrency quota uses inside its set members); "free" = spaces, colons, non-ASCII
+	IDs string `json:"id_style,omitempty"`
+}
+
+// idStyle is the id style of the case that is running (set where the case starts, like the clock)
+var idStyle string
+
+func txName(id int) string {
+	switch idStyle {
+	case "nested":
+		if id%2 == 0 { // the longer id belongs to the earlier transaction of a pair
+			return fmt.Sprintf("order-%d::retry", id/2)
+		}
+		return fmt.Sprintf("order-%d", id/2)
+	case "free":
+		return fmt.Sprintf("req %d: \u00e9::\u2603", id)
+	}
+	return fmt.Sprintf("t%d", id)
 }
 
 // effective expiry / collector interval (documented defaults when not configured)
@@ -229,6 +249,7 @@ func genConfig() *rapid.Generator[config] {
 		}
 		c.Second = rapid.SampledFrom([]string{"", "", "after", "before", "conc-after", "conc-before"}).Draw(t, "second")
 		c.Cluster = rapid.SampledFrom([]string{"none", "none", "gw-7f3a", "", ""}).Draw(t, "cluster")
+		c.IDs = rapid.SampledFrom([]string{"", "", "", "nested", "nested", "free"}).Draw(t, "ids")
 		return c
 	})
 }
@@ -240,7 +261,26 @@ func genSteps(c config) *rapid.Generator[[]step] {
 		next := 1
 		exp, gc := effExp(c.ExpireSec), effGC(c.GCSec)
 		for k := 0; k < n; k++ {
-			switch rapid.IntRange(0, 12).Draw(t, "op") {
+			op := rapid.IntRange(0, 12).Draw(t, "op")
+			if c.IDs == "nested" && op == 3 && rapid.Bool().Draw(t, "pair") {
+				// two transactions whose ids differ by the separator suffix: the one with the longer id starts first
+				// and is never answered, the other starts d later, is still inside its own expiry when the first one
+				// has passed its expiry (a collector pass falls in between for d = gc), and is answered then;
+				// afterwards as many requests as the quota has slots
+				if next%2 == 1 {
+					next++
+				}
+				d := rapid.SampledFrom([]time.Duration{gc, time.Second, 500 * time.Millisecond}).Draw(t, "pd")
+				out = append(out, step{Op: "req", Txn: next}, step{Op: "adv", D: d}, step{Op: "req", Txn: next + 1},
+					step{Op: "adv", D: exp}, step{Op: "resp", Txn: next + 1})
+				next += 2
+				for i := int64(0); i < c.Max && i < 6; i++ {
+					out = append(out, step{Op: "req", Txn: next})
+					next++
+				}
+				continue
+			}
+			switch op {
 			case 12:
 				// the gateway's metrics collection reads the quota gauges
 				out = append(out, step{Op: "metrics"})
@@ -368,7 +408,7 @@ func txn(id int, early bool, now time.Time) engine.Txn {
 	if early {
 		h["x-early"] = "1"
 	}
-	return engine.Txn{ID: fmt.Sprintf("t%d", id), Method: "GET", URL: "h.com/c", Path: "/c", Headers: h, Time: now, Status: 200}
+	return engine.Txn{ID: txName(id), Method: "GET", URL: "h.com/c", Path: "/c", Headers: h, Time: now, Status: 200}
 }
 
 type infraErr struct{ msg string }
@@ -411,6 +451,8 @@ func runHistoryInner(h hist) (nontrivial bool, classes map[string]int, err error
 	engine.SetClock(clk)
 	engine.SetCluster(h.Config.Cluster)
 	defer engine.SetCluster("none")
+	idStyle = h.Config.IDs
+	defer func() { idStyle = "" }()
 	metrics := engine.NewMetrics()
 	defer metrics.Close()
 	dir, e := engine.NewDir(scratch)
@@ -590,7 +632,7 @@ func runHistoryInner(h hist) (nontrivial bool, classes map[string]int, err error
 				ended[st.Txn] = true
 			}
 		case "err":
-			s.OnError(fmt.Sprintf("t%d", st.Txn))
+			s.OnError(txName(st.Txn))
 			if ended[st.Txn] || !admitted[st.Txn] {
 				classes["dup-or-unknown-end"]++
 			}
@@ -743,6 +785,9 @@ func TestRegressionFixedDefects(t *testing.T) {
 		{Config: config{Max: 1, Second: "conc-before"}, Steps: []step{{Op: "req", Txn: 1}, {Op: "resp", Txn: 1}, {Op: "req", Txn: 2}}},
 		// a transaction the proxy reports as failed under a fixed-window internal limit of the concurrency quota
 		{Config: config{Max: 1, Parent: true, PMax: 1, Mixed: true}, Steps: []step{{Op: "req", Txn: 1}, {Op: "err", Txn: 1}, {Op: "req", Txn: 2}}},
+		// a request id that contains the separator of the set members ("order-1::retry"): never collected after its expiry (4be2760)
+		{Config: config{Max: 1, IDs: "nested"}, Steps: []step{{Op: "req", Txn: 2}, adv(30 * time.Second), adv(60 * time.Second), {Op: "req", Txn: 3}}},
+		{Config: config{Max: 2, ExpireSec: 2, GCSec: 1, IDs: "free"}, Steps: []step{{Op: "req", Txn: 1}, {Op: "req", Txn: 2}, adv(3 * time.Second), {Op: "req", Txn: 3}, {Op: "req", Txn: 4}}},
 	}
 	for _, h := range cases {
 		r.Case()
